@@ -78,7 +78,7 @@ def finish(prop, tier, seed, t0, b, results, spec):
     seen_jobs = set()
     for r in results:
         for v in r['violations']:
-            if prop not in v['props']:
+            if prop not in v['props'] and not os.environ.get('SEIR_ALLPROPS'):
                 continue
             key = "%s:%s" % (v['call'].get('op', '?'), v['clauses'][0].split(':')[0])
             jid = json.dumps(v['job'], sort_keys=True)
@@ -173,8 +173,33 @@ def _z3v():
     return z3.get_version_string()
 
 
+def slots_task(tier):
+    ts = [Task("bind over all slot occupancies N=2 cap=4 v1=0 v2=1", 'seir.pgraph:ob_bind_slots', N=2, cap=4, v1=0, v2=1, _weight=30)]
+    if tier == 'thorough':
+        ts += [Task("bind over all slot occupancies N=2 cap=4 v1=3 v2=1", 'seir.pgraph:ob_bind_slots', N=2, cap=4, v1=3, v2=1, _weight=30),
+               Task("bind over all slot occupancies N=1 cap=3 v1=2 v2=0", 'seir.pgraph:ob_bind_slots', N=1, cap=3, v1=2, v2=0, _weight=30),
+               Task("bind over all slot occupancies N=3 cap=5 v1=1 v2=4", 'seir.pgraph:ob_bind_slots', N=3, cap=5, v1=1, v2=4, _weight=30)]
+    return ts
+
+
 PROPS = {
-    'C02': GraphSpec(['add', 'put', 'data', 'bind'], "abstract transition relation + Inv preservation + no panic within the limits, one step from every Inv state"),
+    'C01': GraphSpec(['add', 'put', 'data', 'bind', 'next_id', 'readers'],
+                     "GC safety as a step relation from every Inv state: only data(v) removes, only members of v's group "
+                     "(ghost bind-history relation: linked/bound), none of them unread; all other calls leave every tag; "
+                     "&self readers leave the three stores byte-identical; keys()/len() equal the tag table"),
+    'C02': GraphSpec(['add', 'put', 'data', 'bind'],
+                     "abstract transition relation (group formation / join / no-op, collection exactly when the last unread "
+                     "datum of the group is read) + Inv preservation (counter == recount, member lists == tags) + no panic "
+                     "within the limits, one step from every Inv state"),
+    'C03': GraphSpec(['add', 'put', 'data', 'bind', 'readers'],
+                     "edges and data read back what was written: bind/put update exactly one entry, data()/kid()/kids() "
+                     "return what the abstract state holds, every other cell of every vertex is unchanged (incl. by a collection)"),
     'C04': GraphSpec(['add'], "add(v) from every Inv state: blank vertex on an absent id (arbitrary stale contents), nothing changes on a present id"),
-    'C05': GraphSpec(['next_id'], "next_id() from every Inv state with an absent id at or above the allocator position"),
+    'C05': GraphSpec(['next_id'], "next_id() from every Inv state with an absent id at or above the allocator position: result below "
+                     "capacity, absent, at or above the position (so never issued before), position moves past it; nothing else changes; "
+                     "add/bind/put/data leave the position (frame clauses of C01-C03 obligations)"),
+    'C06': GraphSpec(['data', 'bind', 'add', 'put', 'next_id'],
+                     "group capacity is given back: inductive argument over the slot table (Inv: slot occupied iff a vertex carries its tag; "
+                     "collection empties slot and counter; bind of two ungrouped vertices takes a previously empty slot >= 2 for every one of "
+                     "the 2^14 occupancy patterns; no other call changes occupancy)", extra_tasks=slots_task),
 }
